@@ -105,6 +105,13 @@ def _inplace_base(func):
     return ov if ov in PURE else None
 
 
+def as_torch_error(msg):
+    """An error PyTorch itself would raise for these arguments (shape mismatch); attributed to the calling library code."""
+    ex = RuntimeError(msg)
+    ex._symtorch_as_torch = True
+    return ex
+
+
 def dispatch(e, func, args, kwargs):
     if func in RANDOM:
         return RANDOM[func](e, func, args, kwargs)
@@ -118,7 +125,13 @@ def dispatch(e, func, args, kwargs):
         return SPECIAL[func](e, func, args, kwargs)
     if func in PURE:
         b = bind(func, args, kwargs)
-        return e.out(func, args, kwargs, PURE[func](e, b))
+        try:
+            arr = PURE[func](e, b)
+        except ValueError as ex:
+            if "broadcast" in str(ex):
+                raise as_torch_error(f"{func}: operands cannot be broadcast together ({ex})") from None
+            raise
+        return e.out(func, args, kwargs, arr)
     base = _inplace_base(func)
     if base is not None:
         b = bind(base, args, kwargs)
@@ -1072,7 +1085,10 @@ def _index_put_core(e, b):
     v = e.read(vals)
     if vals.dtype != s.dtype and v.size:
         v = ufunc(lambda x: T.cast(x, vals.dtype, s.dtype), 1)(v)
-    v = np.broadcast_to(v, tgt_shape)
+    try:
+        v = np.broadcast_to(v, tgt_shape)
+    except ValueError:
+        raise as_torch_error(f"shape mismatch: value tensor of shape {list(v.shape)} cannot be broadcast to indexing result of shape {list(tgt_shape)}") from None
     for bpos in (np.ndindex(*bshape) if bshape else [()]):
         ivals = [require_range(e, bi[bpos], a.shape[d], "index_put") for bi, d in zip(bidx, adv)]
         for rpos in (np.ndindex(*rest_shape) if rest_shape else [()]):
